@@ -48,6 +48,8 @@ func tables() []tableInfo {
 				{"ins3", "insert", gen.Stmt{Name: "ins3", Kind: "insert", SQL: "INSERT INTO t_s1 (id, name, cnt) VALUES (5, 'e', 50), (6, 'f', 60), (7, 'g', 70)"}, nil},
 				{"ups-ins", "upsert", gen.Stmt{Name: "ups-ins", Kind: "upsert", SQL: "INSERT INTO t_s1 (id, name, cnt) VALUES (5, 'e', 50) ON DUPLICATE KEY UPDATE cnt = cnt + 1"}, nil},
 				{"ups-upd", "upsert", gen.Stmt{Name: "ups-upd", Kind: "upsert", SQL: "INSERT INTO t_s1 (id, name, cnt) VALUES (1, 'z', 9) ON DUPLICATE KEY UPDATE cnt = cnt + 1"}, []string{"cnt"}},
+				{"upd-digits", "update", gen.Stmt{Name: "upd-digits", Kind: "update", SQL: "UPDATE t_s1 SET name = ? WHERE id = 1", Args: []interface{}{"01069"}}, []string{"name"}},
+				{"upd-longdigits", "update", gen.Stmt{Name: "upd-longdigits", Kind: "update", SQL: "UPDATE t_s1 SET name = ? WHERE id = 2", Args: []interface{}{"6222020200112345678"}}, []string{"name"}},
 			}},
 		{schema: &gen.S3, init: []int{0, 1, 2}, third: "cnt = 999", written: "cnt", unwr: "v = 'foreign'",
 			keyWhere: func(pk []memdb.Value) (string, []interface{}) { return "a = ? AND b = ?", []interface{}{pk[0], pk[1]} },
@@ -70,7 +72,7 @@ func tables() []tableInfo {
 }
 
 // Foreign operation kinds applied to one touched row.
-var foreignKinds = []string{"third", "back", "unwritten", "delete", "reinsert-same", "reinsert-diff"}
+var foreignKinds = []string{"third", "back", "unwritten", "delete", "reinsert-same", "reinsert-diff", "lookalike"}
 
 type fop struct {
 	Kind string `json:"kind"`
@@ -229,6 +231,14 @@ func evalCase(r *rep.Run, e *sys.Env, c Case, idx int) {
 					return
 				}
 				q, args = "UPDATE "+s.Table+" SET "+ti.third+" WHERE "+where, wargs
+			case "lookalike":
+				// a different text that a numeric comparison would call equal
+				alike := map[string]string{"upd-digits": "1069", "upd-longdigits": "6222020200112345679"}[b.Name]
+				if alike == "" || cur == nil {
+					applicable = false
+					return
+				}
+				q, args = "UPDATE "+s.Table+" SET name = ? WHERE "+where, append([]interface{}{alike}, wargs...)
 			case "back":
 				if cur == nil || before == nil || after == nil {
 					applicable = false
